@@ -373,7 +373,12 @@ fn gen_c08(r: &mut Rng, _t: Tier, job: u64) -> Plan {
         return gen_streamed_volume(r);
     }
     let np = *r.pick(&[0usize, 1, 1, 2, 3, 5, 7, 8, 9, 15, 16, 17, 40, 300]);
-    let id = r.next() as u32;
+    // ids are the shim's choice: anything, the extremes included
+    let id = match r.below(8) {
+        0 => u32::MAX,
+        1 => 0,
+        _ => r.next() as u32,
+    };
     let mut cmds = vec![Cmd {
         seq: 0,
         kind: CmdKind::Prepare(query_text(r)),
@@ -390,6 +395,24 @@ fn gen_c08(r: &mut Rng, _t: Tier, job: u64) -> Plan {
             cols: vec![],
         }),
     }];
+    if r.chance(1, 3) {
+        // another statement is prepared afterwards (and never used): "the statement prepared
+        // last" is then not the one the executions name
+        cmds.push(Cmd {
+            seq: 0,
+            kind: CmdKind::Prepare(Blob::lit(b"decoy")),
+            act: Act::Prepare(PrepAct::Reply {
+                id: if id == 1 { 2 } else { 1 },
+                params: vec![ColSpec {
+                    table: Blob::lit(b""),
+                    name: Blob::lit(b"?"),
+                    coltype: 0x08,
+                    flags: 0,
+                }],
+                cols: vec![],
+            }),
+        });
+    }
     // sometimes the id was handed out before with another parameter count (a caching shim
     // re-using ids without a close in between): the execution must see the new declaration
     if r.chance(1, 6) {
@@ -1809,7 +1832,9 @@ fn gen_c17(r: &mut Rng, t: Tier, job: u64) -> Plan {
     let mut cmds = Vec::new();
     let mut st: Vec<(u32, usize, Option<Vec<(u8, u8)>>)> = Vec::new();
     for s in 0..ns {
-        let id = [5u32, 6, 0][s];
+        // (the first id is also the sentinel some connectors use for "the statement prepared
+        // last": to this library it is an id like any other)
+        let id = [u32::MAX, 6, 0][s];
         let np = 1 + r.usize_below(4);
         st.push((id, np, None));
         cmds.push(Cmd {
